@@ -297,6 +297,12 @@ impl Replayer {
                             if let Ok(c3) = Ctx::new(&cfg3, &home) {
                                 others.insert(3, c3);
                             }
+                            // ... and one over ANOTHER valid database directory (a dictionary of a few words)
+                            let mut cfg5 = cfg.clone();
+                            cfg5.altdb = true;
+                            if let Ok(c5) = Ctx::new(&cfg5, &home) {
+                                others.insert(5, c5);
+                            }
                         }
                         let mut made = match pooled {
                             Some(mut c) => {
